@@ -681,14 +681,29 @@ class StubsLib(StubsBase):
     def _np_binary(self, ctx, op, a, b, out, kw):
         if kw:
             raise Unsupported(f"ufunc keyword(s) {sorted(kw)}")
+        a, b = self._snap_if_target(a, out), self._snap_if_target(b, out)
         r = self.interp.binop(op, a, b, ctx)
         return self._np_store_out(ctx, r, out)
 
     def _np_unary(self, ctx, op, a, out, kw):
         if kw:
             raise Unsupported(f"ufunc keyword(s) {sorted(kw)}")
+        a = self._snap_if_target(a, out)
         r = self.interp.unop(op, a, ctx)
         return self._np_store_out(ctx, r, out)
+
+    @staticmethod
+    def _snap_if_target(x, out):
+        """np.op(x, y, out=x): the result is computed from the values x holds BEFORE the store (the element function
+        of the operand is captured now; the store replaces the target's element function afterwards)."""
+        if out is None:
+            return x
+        tx = x.val if isinstance(x, Qty) else x
+        to = out.val if isinstance(out, Qty) else out
+        if isinstance(tx, SArr) and tx is to:
+            snap = SArr(tx.shape, tx.elem, tx.dtype, tx.backend, owner=tx.owner)
+            return Qty(snap, x.dim, x.unit) if isinstance(x, Qty) else snap
+        return x
 
     def _np_store_out(self, ctx, r, out):
         if out is None:
